@@ -17,6 +17,7 @@ import (
 	"github.com/ethereum/go-ethereum/accounts/abi"
 	"github.com/ethereum/go-ethereum/common"
 	"github.com/ethereum/go-ethereum/core/vm"
+	"github.com/ethereum/go-ethereum/crypto"
 
 	assetskeeper "github.com/ExocoreNetwork/exocore/x/assets/keeper"
 	assetstypes "github.com/ExocoreNetwork/exocore/x/assets/types"
@@ -200,6 +201,12 @@ func (w *c10World) prepChallenge(ctx sdk.Context, caller common.Address) {
 	store.Set(key, app.AppCodec().MustMarshal(&info))
 }
 
+// the reveal of task 8: its (deterministic) response and the BLS signature over keccak256(response)
+func (w *c10World) task8Reveal() (resp []byte, sig []byte) {
+	resp, _ = avstypes.MarshalTaskResponse(avstypes.TaskResponse{TaskID: 8, NumberSum: big.NewInt(88)})
+	return resp, w.blsKey.sign(crypto.Keccak256Hash(resp).Bytes())
+}
+
 // ---- the EVM caller matrix -----------------------------------------------------------------------
 
 type c10EvmCaller struct {
@@ -262,6 +269,47 @@ func (w *c10World) genEvmCases(cw *CaseWriter, ep c10EvmEP, salt int) {
 	for _, c := range callers {
 		w.oneEvmCase(cw, ep, c, salt)
 	}
+	// the rightful caller with a payload the business logic refuses: authorised, yet rejected
+	if ep.family != "avsop" {
+		r := callers[0]
+		if ep.family == "bls" {
+			r = callers[2]
+		}
+		r.class += "+malformed"
+		w.malformed = true
+		w.oneEvmCase(cw, ep, r, salt)
+		w.malformed = false
+	}
+}
+
+// malform turns well-formed ABI arguments into ones that the code behind the guard refuses
+func (w *c10World) malform(ep c10EvmEP, args []interface{}) []interface{} {
+	out := append([]interface{}{}, args...)
+	switch ep.family {
+	case "gateway":
+		switch ep.method {
+		case "registerOrUpdateClientChain":
+			out[1] = uint8(0) // address length 0 is refused (client chain id 0, by the way, is accepted)
+		default:
+			out[0] = uint32(9999) // a client chain nobody registered
+		}
+	case "avsreg":
+		out[7] = []string{} // no asset ids
+	case "avsowner":
+		switch ep.method {
+		case "updateAVS":
+			out[3] = common.Address{} // zero task address
+		case "deregisterAVS":
+			out[1] = "not-the-name"
+		case "createTask":
+			out[1] = "" // empty task name
+		}
+	case "bls":
+		out[3] = make([]byte, 96) // not a signature of this key
+	case "challenge":
+		out[1] = []byte("another-task-hash")
+	}
+	return out
 }
 
 func (w *c10World) oneEvmCase(cw *CaseWriter, ep c10EvmEP, c c10EvmCaller, salt int) {
@@ -303,7 +351,9 @@ func (w *c10World) oneEvmCase(cw *CaseWriter, ep c10EvmEP, c c10EvmCaller, salt 
 		if c.class == "avscontract+not-an-operator" {
 			call.BizOK = false // IsOperator fails
 		}
-		if c.sender != c.origin {
+		// the recorded finding is tagged only where the binding to the calling contract holds (the caller is a registered
+		// AVS); an opt-in accepted from anybody else would be a new violation
+		if c.sender != c.origin && c.caller == w.avsContract {
 			tags = append(tags, "kf-C10-avs-operator-bound-to-arg")
 		}
 	case "bls":
@@ -314,6 +364,10 @@ func (w *c10World) oneEvmCase(cw *CaseWriter, ep c10EvmEP, c c10EvmCaller, salt 
 		if c.caller == w.avsContract && c.sender != w.accs[w.owner] {
 			tags = append(tags, "kf-C10-avs-challenge-no-owner-check")
 		}
+	}
+	if w.malformed {
+		args = w.malform(ep, args)
+		call.BizOK = false
 	}
 	input, err := ep.abi.Pack(ep.method, args...)
 	if err != nil {
@@ -332,10 +386,12 @@ type c10TxEP struct {
 	ep     string
 	family string // signer | subject | stub | params
 	// msg builds the message whose signer (principal) is accs[principal]
-	msg  func(w *c10World, principal sdk.AccAddress, salt int) (sdk.Msg, string /*subject*/, string /*new gateway*/)
-	who  int // index into accs of the rightful principal
-	prep func(w *c10World, ctx sdk.Context)
-	biz  bool
+	msg func(w *c10World, principal sdk.AccAddress, salt int) (sdk.Msg, string /*subject*/, string /*new gateway*/)
+	who int // index into accs of the rightful principal
+	// stageOf: SubmitTaskResult only, the stage the message built for this salt is in
+	stageOf func(salt int) uint64
+	prep    func(w *c10World, ctx sdk.Context)
+	biz     bool
 }
 
 func (w *c10World) consKeyJSON(i int) string {
@@ -368,27 +424,50 @@ func (w *c10World) txEPs() []c10TxEP {
 				return &operatortypes.SetConsKeyReq{Address: p.String(), AvsAddress: w.dogfoodAvs, PublicKeyJSON: w.consKeyJSON(salt)}, p.String(), ""
 			}},
 		{ep: "M_avs_SubmitTaskResult", family: "subject", who: w.opAcc, biz: true,
+			// salt bit 0: the result is filed under another operator's name; salt bit 1: phase-two reveal instead of
+			// phase-one commit
+			stageOf: func(salt int) uint64 { return uint64(1 + (salt>>1)&1) },
 			msg: func(w *c10World, p sdk.AccAddress, salt int) (sdk.Msg, string, string) {
 				subj := p.String()
 				if salt%2 == 1 {
 					subj = w.env.Operators[1].String() // a result filed in the name of another operator
 				}
-				return &avstypes.SubmitTaskResultReq{FromAddress: p.String(), Info: &avstypes.TaskResultInfo{
-					OperatorAddress: subj, TaskContractAddress: w.avsContract.String(), TaskId: 7, Stage: avstypes.TwoPhaseCommitOne,
-					BlsSignature: w.blsKey.sig,
-				}}, subj, ""
+				info := &avstypes.TaskResultInfo{OperatorAddress: subj, TaskContractAddress: w.avsContract.String()}
+				if (salt>>1)&1 == 0 {
+					// commit: task 7 is inside its response window
+					info.TaskId, info.Stage, info.BlsSignature = 7, avstypes.TwoPhaseCommitOne, w.blsKey.sig
+				} else {
+					// reveal: task 8 is inside its statistical window and the named operator has a phase-one record whose BLS
+					// signature (public chain state) and task response (deterministic) anybody can reproduce
+					resp, sig := w.task8Reveal()
+					info.TaskId, info.Stage, info.TaskResponse, info.BlsSignature = 8, avstypes.TwoPhaseCommitTwo, resp, sig
+				}
+				return &avstypes.SubmitTaskResultReq{FromAddress: p.String(), Info: info}, subj, ""
 			},
 			prep: func(w *c10World, ctx sdk.Context) {
 				app := w.env.App
-				// both operators have a BLS key on record and task 7 of the AVS is inside its response window, so the
-				// only thing that can stop a result filed under a foreign name is the FromAddress = OperatorAddress check
-				for _, o := range []string{sdk.AccAddress(w.accs[w.opAcc].Bytes()).String(), w.env.Operators[1].String()} {
+				// both operators have a BLS key on record, task 7 of the AVS is inside its response window, task 8 inside its
+				// reveal window with a phase-one record of both operators; so the only thing that can stop a result filed
+				// under a foreign name is the FromAddress = OperatorAddress check
+				ops := []string{sdk.AccAddress(w.accs[w.opAcc].Bytes()).String(), w.env.Operators[1].String()}
+				for _, o := range ops {
 					_ = app.AVSManagerKeeper.SetOperatorPubKey(ctx, &avstypes.BlsPubKeyInfo{Name: "c10", Operator: o, PubKey: w.blsKey.pub})
 				}
 				_ = app.AVSManagerKeeper.SetTaskInfo(ctx, &avstypes.TaskInfo{
 					TaskContractAddress: w.avsContract.String(), Name: "c10 task 7", Hash: []byte("c10-task-7"), TaskId: 7,
 					TaskResponsePeriod: 1000, TaskStatisticalPeriod: 10, TaskChallengePeriod: 10, ThresholdPercentage: 60, StartingEpoch: 0,
 				})
+				_ = app.AVSManagerKeeper.SetTaskInfo(ctx, &avstypes.TaskInfo{
+					TaskContractAddress: w.avsContract.String(), Name: "c10 task 8", Hash: []byte("c10-task-8"), TaskId: 8,
+					TaskResponsePeriod: 0, TaskStatisticalPeriod: 1000, TaskChallengePeriod: 10, ThresholdPercentage: 60, StartingEpoch: 0,
+				})
+				_, sig := w.task8Reveal()
+				store := prefix.NewStore(ctx.KVStore(app.GetKey("avs")), avstypes.KeyPrefixTaskResult)
+				for _, o := range ops {
+					rec := avstypes.TaskResultInfo{OperatorAddress: o, TaskContractAddress: w.avsContract.String(), TaskId: 8,
+						Stage: avstypes.TwoPhaseCommitOne, BlsSignature: sig}
+					store.Set(assetstypes.GetJoinedStoreKey(o, w.avsContract.String(), "8"), app.AppCodec().MustMarshal(&rec))
+				}
 			}},
 		{ep: "M_avs_RegisterAVS", family: "stub", who: w.owner,
 			msg: func(w *c10World, p sdk.AccAddress, salt int) (sdk.Msg, string, string) {
@@ -485,6 +564,12 @@ func (w *c10World) genTxCases(cw *CaseWriter, ep c10TxEP, salt int) {
 		for _, mode := range ms {
 			w.oneTxCase(cw, ep, principal, victim, other, mode, chainID, salt)
 		}
+		if ci == 0 && ep.family != "stub" {
+			// the rightful signer with a payload the handler refuses: authenticated, yet rejected
+			w.malformed = true
+			w.oneTxCase(cw, ep, principal, victim, other, c10TxValid, chainID, salt)
+			w.malformed = false
+		}
 		if ep.family == "params" {
 			// the gov module itself
 			msg, _, gw := ep.msg(w, w.govAddr, salt)
@@ -501,20 +586,66 @@ func (w *c10World) oneTxCase(cw *CaseWriter, ep c10TxEP, principal sdk.AccAddres
 	if chainID != "" {
 		ctx = ctx.WithChainID(chainID)
 	}
-	tx, bz, auth, err := w.buildStdTx(ctx, msg, victim, other, mode)
-	if err != nil {
-		panic(fmt.Sprintf("c10: build tx %s/%s: %v", ep.ep, c10TxModeNames[mode], err))
-	}
 	biz := ep.biz && w.bizUnderChain(ep.ep, chainID)
 	if ep.family == "subject" && subject != principal.String() {
 		biz = false
 	}
-	call := c10Call{EP: ep.ep, Class: c10TxModeNames[mode], Principal: principal.String(), Subject: subject, Auth: auth, NewGateway: gw, BizOK: biz}
+	class := c10TxModeNames[mode]
+	if w.malformed {
+		msg = w.malformTx(ep, msg)
+		biz = false
+		class += "+malformed"
+	}
+	tx, bz, auth, err := w.buildStdTx(ctx, msg, victim, other, mode)
+	if err != nil {
+		panic(fmt.Sprintf("c10: build tx %s/%s: %v", ep.ep, c10TxModeNames[mode], err))
+	}
+	call := c10Call{EP: ep.ep, Class: class, Principal: principal.String(), Subject: subject, Auth: auth, NewGateway: gw, BizOK: biz}
+	if ep.stageOf != nil {
+		call.Stage = ep.stageOf(salt)
+		if w.malformed {
+			call.Stage = 3
+		}
+		call.Class += fmt.Sprintf("/stage%d", call.Stage)
+		if subject != principal.String() {
+			call.Class += "/foreign-operator"
+		}
+	}
 	var prep c10Prep
-	if ep.prep != nil {
+	if ep.prep != nil && !(w.malformed && (ep.ep == "M_operator_OptOutOfAVS" || ep.ep == "M_delegation_UndelegateAssetFromOperator")) {
 		prep = func(ctx sdk.Context) { ep.prep(w, ctx) }
 	}
+	if w.malformed && ep.ep == "M_operator_RegisterOperator" {
+		// already registered: run the very same message once before
+		prep = func(ctx sdk.Context) { _, _ = w.env.App.MsgServiceRouter().Handler(msg)(ctx, msg) }
+	}
 	w.runTxCase(cw, call, tx, bz, chainID, prep, nil, false)
+}
+
+// malformTx turns a well-formed message into one its handler refuses (statefully, after authentication)
+func (w *c10World) malformTx(ep c10TxEP, msg sdk.Msg) sdk.Msg {
+	switch m := msg.(type) {
+	case *operatortypes.OptIntoAVSReq:
+		m.AvsAddress = w.otherContract.Hex() // not an AVS
+	case *operatortypes.SetConsKeyReq:
+		m.AvsAddress = w.avsContract.Hex() // not a chain-type AVS
+	case *avstypes.SubmitTaskResultReq:
+		m.Info.Stage = "3" // neither commit nor reveal
+	case *delegationtypes.MsgDelegation:
+		m.BaseInfo.PerOperatorAmounts[0].Value.Amount = sdkmath.NewIntWithDecimal(1, 30) // more than the account owns
+	case *assetstypes.MsgUpdateParams:
+		m.Params.ExocoreLzAppAddress = "0xnot-an-address"
+	case *dogfoodtypes.MsgUpdateParams:
+		m.Params.EpochIdentifier = "no-such-epoch"
+	case *exominttypes.MsgUpdateParams:
+		m.Params.EpochIdentifier = "no-such-epoch"
+	case *feedisttypes.MsgUpdateParams:
+		m.Params.EpochIdentifier = "no-such-epoch"
+	case *oracletypes.MsgUpdateParams:
+		m.Params.Chains = []*oracletypes.Chain{{Name: "Ethereum", Desc: "duplicate of an existing chain"}}
+	}
+	// RegisterOperator (registered twice), OptOutOfAVS (never opted in), Undelegate (nothing delegated): by the prepared state
+	return msg
 }
 
 func (w *c10World) oneTxCaseForgedAuthority(cw *CaseWriter, ep c10TxEP, signer cryptotypes.PrivKey, chainID string, salt int) {
@@ -638,7 +769,10 @@ func runC10(a *Args) error {
 	for i, ep := range txEPs {
 		w.genTxCases(cw, ep, int(a.Seed%1000)+i)
 		if ep.family == "subject" {
-			w.genTxCases(cw, ep, int(a.Seed%1000)+i+1) // the other parity: result filed under a foreign / the own name
+			// the other three combinations of (own / foreign operator name) x (commit / reveal)
+			for d := 1; d <= 3; d++ {
+				w.genTxCases(cw, ep, int(a.Seed%1000)+i+d)
+			}
 		}
 	}
 	w.quickMatrix = false
@@ -658,6 +792,17 @@ func runC10(a *Args) error {
 	// state of the running block). These two modify the block state, hence they come last.
 	w.deliverPriceCase(cw, 0, c10SigGarbage, int(a.Seed%1000))
 	w.deliverPriceCase(cw, 1, c10SigValid, int(a.Seed%1000))
+	// coverage summary per entry point (the full matrix is in the cov:<ep>|<class>|<accepted/rejected> counters)
+	for ep, c := range w.cov {
+		cw.CountN("cov-ep:"+ep+":accepted", c[0])
+		cw.CountN("cov-ep:"+ep+":rejected", c[1])
+		if c[0] == 0 {
+			cw.Count("cov-gap:never-accepted:" + ep)
+		}
+		if c[1] == 0 {
+			cw.Count("cov-gap:never-rejected:" + ep)
+		}
+	}
 	return nil
 }
 
